@@ -82,6 +82,22 @@ COMMON_TB = [
 ]
 
 PROPS = {
+    "C18": {
+        "harness": "c18", "driver": "c18",
+        "lean_modules": ["BleveModel.Props.C18"],
+        "rule": ("(a) numeric.Interleave / Deinterleave on random, single-bit, all-ones-prefix and extreme 32-bit inputs (and Deinterleave "
+                 "on arbitrary 64-bit words) compared with the Lean bit recursion; point hash round trip within 1e-6 degrees. (b) "
+                 "in-memory scorch indexes with and without the s2 plugin, 20-80 documents with one or two points (random, on "
+                 "+-180 / +-90, near the date line), distance queries (10 m - 4500 km, centres on the date line and near the poles), "
+                 "bounding boxes (35% crossing the date line), convex polygons, judged against an independent haversine / planar "
+                 "oracle with a margin (0.5% + 10 m for distances, 1e-5 deg for boxes, 1e-4 deg for polygon edges): clearly-inside "
+                 "points must be returned, documents with all points clearly outside must not; distance sort order against the "
+                 "oracle with the same tolerance. non-trivial = queries with a non-empty, non-total answer"),
+        "trusted_base": COMMON_TB + ["the harness's float oracle (spherical haversine, planar convex-polygon test)", "s2 geometry library"],
+        "assumptions": ["points within the margin of a boundary are not judged", LEVEL_NOTE],
+        "floors": {"interleave": 1000, "plain/distance": 20, "s2/box": 20, "plain/polygon": 15},
+        "thorough_shards": 8,
+    },
     "C19": {
         "harness": "c19", "driver": "c19",
         "lean_modules": ["BleveModel.Props.C19"],
